@@ -46,7 +46,7 @@ For each change X in {{a, b}} produce, in {out}/X/ :
   patch.diff  - output of `git diff` in the worktree (must apply with `git apply` to a clean checkout of the same commit);
   demo.py     - a standalone script, run as `cd {wt} && /venv/bin/python {out}/X/demo.py`. It must start with `import os, sys; sys.path.insert(0, os.getcwd())`, build whatever small input it needs (temporary files under tempfile.mkdtemp(), synthetic arrays; no network), exercise the PUBLIC behaviour named by the property, and: print "PASS" and exit 0 on the unmodified library; print "FAIL: <what was wrong>" and exit 1 with your change applied. Keep it short and deterministic;
   notes.md    - 5-15 lines: what the change is, which clause of the property it breaks, exactly what is needed for it to manifest, and the commands you ran with their results (test-suite summary line with the change applied; demo output with and without the change).
-After saving each patch, restore the worktree (`git checkout -- .`) and make sure demo.py prints PASS again, so that a and b are independent patches against the same clean commit. Leave the worktree clean at the end.
+Never use `git stash` (the stash is shared with other people's worktrees of the same repository); save your diff to a file and use `git checkout -- .` / `git apply` instead. After saving each patch, restore the worktree (`git checkout -- .`) and make sure demo.py prints PASS again, so that a and b are independent patches against the same clean commit. Leave the worktree clean at the end.
 
 Verify everything yourself before finishing: (1) baseline tests recorded; (2) with patch a applied: same tests pass, demo a FAILs; without: PASS; (3) same for b. If a candidate change makes an existing test fail, discard it and find another. Finish with a 5-line summary (what a and b are). Do not write anything outside {out}/ and the worktree.
 """
